@@ -290,7 +290,7 @@ pub fn specs() -> Vec<CheckSpec> {
             stub: NO_STUB,
             assumptions: &["valid histories as stated in the property; level counts 1,2,3,5,10,16,24 (Env) and 1,3,10 (MarketEnv) are the compiled instantiations", "sampling, not enumeration"],
             explanation: "model-free comparison of recorded series with the live book after every step",
-            expected_probes: &["asymmetric_book_recorded", "level_beyond_first_populated", "step_with_traded_volume_recorded"],
+            expected_probes: &["asymmetric_book_recorded", "level_beyond_first_populated", "deepest_level_populated", "step_with_traded_volume_recorded"],
         },
         CheckSpec {
             id: "C12",
@@ -410,7 +410,7 @@ pub fn specs() -> Vec<CheckSpec> {
             stub: &["pandas (not installable offline): stand-in implementing DataFrame.from_records(columns=), df[col], Series.map, assignment", "tqdm (not installable offline): stand-in for trange"],
             assumptions: &["the documentation tables in rust/src/step_sim.rs, rust/src/step_sim_numpy.rs, base_agent.py and data_processing.py as transcribed into the harness (w5.rs: l1_doc, l2_doc, market_data_doc, df_*_doc)", "the simulation contributes state diversity only: the property is a layout function of the state"],
             explanation: "conformance of array / dictionary / data-frame layouts with the documented tables on diverse asymmetric states",
-            expected_probes: &["layout_calls_checked", "asymmetric_two_sided_book_at_end"],
+            expected_probes: &["layout_calls_checked", "asymmetric_two_sided_book_at_end", "deepest_level_populated"],
         },
         CheckSpec {
             id: "C20",
